@@ -15,6 +15,9 @@ MUTANTS = {
         ('inj-no-skip', 'dashlive/server/requesthandler/manifest_context.py', "                if tm < earliest_available:\n                    continue\n", ""),
         ('inj-scale-args', 'dashlive/server/requesthandler/manifest_context.py', "                    drop_delta, representation.timescale,\n                    representation.segment_duration))", "                    drop_delta, representation.segment_duration,\n                    representation.timescale))"),
         ('inj-delta-now', 'dashlive/server/requesthandler/manifest_context.py', "                drop_delta = tm - availabilityStartTime", "                drop_delta = tm - earliest_available"),
+        ('merr-window', 'dashlive/server/requesthandler/manifest_requests.py', "if context['mpd'].now < tm or context['mpd'].now > tm2:", "if context['mpd'].now < tm or context['mpd'].now >= tm2:"),
+        ('merr-update', 'dashlive/server/requesthandler/manifest_requests.py', "                if pos != options.updateCount:\n                    continue", "                if pos > options.updateCount:\n                    continue"),
+        ('merr-count', 'dashlive/server/requesthandler/manifest_requests.py', "self.increment_error_counter('manifest', code) > options.failureCount", "self.increment_error_counter('manifest', code) > options.failureCount + 1"),
         ('err-counter-none', 'dashlive/server/requesthandler/base.py', "value = (flask.session.get(key) or 0) + 1", "value = flask.session.get(key, 0) + 1"),
         ('err-count-ge', 'dashlive/server/requesthandler/media_requests.py', "self.increment_error_counter(content_type, code) > options.failureCount", "self.increment_error_counter(content_type, code) >= options.failureCount"),
         ('err-pos-eq', 'dashlive/server/requesthandler/media_requests.py', "            if pos != seg_num:\n                continue\n            if (", "            if pos == seg_num:\n                continue\n            if ("),
